@@ -629,6 +629,10 @@ func (e *Engine) runBlock(fr *frame) {
 
 // mayExecute decides whether the real SSA body of fn is run (DESIGN 3.6).
 func (e *Engine) mayExecute(fn *ssa.Function) bool {
+	// bound-method closures, thunks and wrappers only forward to a method, which is checked when it is called
+	if strings.HasPrefix(fn.Synthetic, "bound method wrapper") || strings.HasPrefix(fn.Synthetic, "thunk for") || strings.HasPrefix(fn.Synthetic, "wrapper for") {
+		return true
+	}
 	pkg := fn.Pkg
 	if pkg == nil {
 		// synthetic: wrappers, bound methods, instantiations
